@@ -15,6 +15,8 @@ NOTES = {  # seed -> (detected_by, note) overriding / complementing the logged r
  'C12-2': ('C12 (reads-back@missing-intermediate)', 'missed at first; caught after a path with three missing levels was added'),
  'C16-2': ('C16 (map-key-returns-value)', 'missed at first; caught after a null-valued key family was added to the maps'),
  'C27-1': ('C27 (lists-exactly-running, interleaving part)', 'missed by the sequential BFS; caught after the E1 interleaving search of concurrent job-table operations was added to C27'),
+ 'C09-2': ('C09 (literal-accepted / literal-value, dq-raw encoder)', 'missed at first: no encoder wrote backslash + literal line feed; caught after the dq-raw encoder was added'),
+ 'C14-2': ('C14 thorough tier (roundtrip-jsonl); not by the quick tier', 'needs a top-level array with a nested array followed by two more elements: arrays of 3 children are only in the thorough tier'),
  'C19-2': ('NOT DETECTED', 'needs a pipe constructor that fails while returning a typed-nil (pty without /dev/ptmx, or a no_pipe_net build): no such failure can be provoked from the command alphabet'),
 }
 ROOT = '/verif'
